@@ -28,7 +28,7 @@ VARIABLES ins, outs, val, maps, rej, outs0
 vars == <<ins, outs, val, maps, rej, outs0>>
 Init == /\ \E k \in 1..2 : ins \in SeqsOf({[i \in 1..M |-> IF i = 1 THEN 1 ELSE 0], [i \in 1..M |-> IF i = M THEN 1 ELSE 0]}, k)
         /\ \E k \in 1..MaxOut : outs \in SeqsOf(States, k)
-        /\ val = [i \in 1..Len(ins) |-> [j \in 1..Len(outs) |-> 1 + 3 * i + j]]
+        /\ val = [i \in 1..Len(ins) |-> [j \in 1..Len(outs) |-> IF (i + j) % 3 = 0 THEN 0 ELSE 1 + 3 * i + j]]    \* some entries are exactly zero
         /\ maps = <<>> /\ rej = FALSE /\ outs0 = outs
 Thr(s, inv) == [k \in 1..Len(s) |-> LET b == IF s[k] >= 1 THEN 1 ELSE 0 IN IF inv THEN 1 - b ELSE b]
 Par(s, inv) == [k \in 1..Len(s) |-> LET b == s[k] % 2 IN IF inv THEN 1 - b ELSE b]
